@@ -18,6 +18,7 @@ pub mod c14;
 pub mod c15;
 pub mod c16;
 pub mod c17;
+pub mod c20;
 pub mod util;
 
 /// Structural parameters of a scenario (always concrete).
@@ -52,6 +53,7 @@ pub fn scenario(name: &str) -> Option<Scenario> {
         "c16_breaker_race" => c16::c16_breaker_race,
         "c17_geometry" => c17::c17_geometry,
         "c17_threads" => c17::c17_threads,
+        "c20_tower" => c20::c20_tower,
         _ => return None,
     })
 }
